@@ -29,7 +29,9 @@ def run_one(mid, in_repo, tier, demo=True):
     d = os.path.join(SEEDED, mid)
     meta = json.load(open(os.path.join(d, 'meta.json')))
     props = meta['property'] if isinstance(meta['property'], list) else [meta['property']]
-    patch = os.path.join(d, 'patch.diff')
+    patch = os.path.join(d, 'patch-ported.diff')
+    if not os.path.exists(patch):
+        patch = os.path.join(d, 'patch.diff')
     res = {'id': mid, 'property': props, 'checks': {}}
     if in_repo:
         tree = '/repo'
